@@ -465,6 +465,11 @@ def iter_method(I, it, name, args, node):
             if I.branch(I.deref(I.apply(a[0], [x], node))):
                 out.append(x)
         return IterV(out)
+    if name in ("take_while", "skip_while"):
+        k = 0
+        while k < len(items) and I.branch(I.deref(I.apply(a[0], [items[k]], node))):
+            k += 1
+        return IterV(items[:k] if name == "take_while" else items[k:])
     if name == "filter_map":
         out = []
         for x in items:
